@@ -179,3 +179,50 @@ Theorem stored_pixel_within_one_pixel :
     - (W * r) <= (2 * c + 1) * (maxx - minx) + 2 * W * minx - W * (2 * tx0 + (2 * j + 1) * r) <= W * r /\
     - (2 * H * r) <= 2 * H * maxy - (2 * rr + 1) * (maxy - miny) - H * (2 * ty1 - (2 * k + 1) * r) <= 2 * H * r.
 Proof. exact stored_pixel_within_one_pixel_lemma. Qed.
+
+(* Concurrent requests on one cache: a request looks for its tiles (cached), creates the missing ones, and every
+   creation step looks again under the lock (locked: another request may have stored tiles in between).  Every
+   requested valid tile is then cached - it was when the request looked, or it is when the step holds the lock, or
+   the step stores it. *)
+Theorem concurrent_request_produces_every_tile :
+  forall m has_meta minimize bulk cached locked (tiles : list coord) z plan,
+    mwf m -> (forall c, In c tiles -> valid_tile m c /\ snd c = z) ->
+    plan_with_caches m has_meta minimize bulk cached locked tiles = Some plan ->
+    forall c, In c tiles -> In c cached \/ In c locked \/ In c (flat_map snd plan).
+Proof. exact plan_with_caches_produces. Qed.
+
+(* pattern_pixel_aligned for the request-minimising meta tile (minimize_meta_requests): for a non-empty list of tiles
+   of one level the meta tile exists, covers the bounding range (minx..maxx, miny..maxy) of the requested tiles and
+   contains each of them; when no buffer is cut off at the grid border the requested size is exactly
+   extent / resolution, every crop offset is the exact pixel distance of the tile from the upper left corner of the
+   requested bbox and every crop rectangle lies inside the image. *)
+Theorem minimal_pattern_pixel_aligned :
+  forall m (tiles : list coord) z,
+    mwf m -> valid_level (mg_grid m) z = true ->
+    tiles <> [] -> (forall x y l, In (x, y, l) tiles -> l = z /\ 0 <= x /\ 0 <= y) ->
+    exists mt minx maxx miny maxy,
+      minimal_meta_tile m tiles = Some mt /\
+      (exists full gs, full_tile_list m tiles = Some (full, gs, ((minx, miny, z), (maxx, maxy, z)))) /\
+      (forall x y l, In (x, y, l) tiles -> minx <= x <= maxx /\ miny <= y <= maxy) /\
+      (forall x y l, In (x, y, l) tiles -> exists crop, In (Some (x, y, l), crop) (mt_pattern mt)) /\
+      (no_buffer_cut_minimal m (minx, miny, z) (maxx, maxy, z) ->
+       let r := res_at (mg_grid m) z in
+       let '(bx0, by0, bx1, by1) := mt_bbox mt in
+       (fst (mt_size mt) * r = bx1 - bx0 /\ snd (mt_size mt) * r = by1 - by0) /\
+       forall cx cy cz px py, In (Some (cx, cy, cz), (px, py)) (mt_pattern mt) ->
+         let '(tx0, ty0, tx1, ty1) := tile_bbox (mg_grid m) cx cy cz in
+         cz = z /\ px * r = tx0 - bx0 /\ py * r = by1 - ty1 /\ 0 <= px /\ 0 <= py /\
+         px + tw (mg_grid m) <= fst (mt_size mt) /\ py + th (mg_grid m) <= snd (mt_size mt)).
+Proof. exact minimal_pattern_pixel_aligned_lemma. Qed.
+
+(* The property for minimize_meta_requests, in the model: the image stored for a requested tile cut out of the
+   request-minimising meta tile equals, pixel by pixel and for every position-only picture, the image stored when the
+   tile is fetched alone, provided no buffer is cut off at the grid border. *)
+Theorem minimal_meta_tile_equals_tile_fetched_alone :
+  forall m q (tiles : list coord) z cx cy j k,
+    mwf m -> valid_level (mg_grid m) z = true -> 0 < q ->
+    (forall x y l, In (x, y, l) tiles -> l = z /\ 0 <= x /\ 0 <= y) ->
+    In (cx, cy, z) tiles -> minimal_no_cut m tiles ->
+    0 <= j < tw (mg_grid m) -> 0 <= k < th (mg_grid m) ->
+    model_pixel m q (HowMinimal tiles) (cx, cy, z) j k = model_pixel m q HowSingle (cx, cy, z) j k.
+Proof. exact minimal_equals_single_lemma. Qed.
